@@ -226,6 +226,10 @@ pub fn run_query_fmt(db: &LocustDB, sql: &str, rowformat: bool) -> Result<QOut, 
         Ok(Err(e)) => Err(QErr::Err(query_error_kind(&e).to_string(), rt::core::truncate(&String::from_utf8_lossy(format!("{e}").as_bytes()), 300))),
         Err(p) => Err(QErr::Panic(rt::core::truncate(&panic_message(&p), 300))),
     };
+    if std::env::var_os("LSIM_TRACE_KEYS").is_some() {
+        let (k0, _k1): (u64, u64) = unsafe { std::mem::transmute(std::collections::hash_map::RandomState::new()) };
+        eprintln!("[keys] after query {}: k0={k0}", rt::core::truncate(sql, 100));
+    }
     rt::core::log("q_return", || match &out {
         Ok(o) => format!("ok rows={}", o.rows.len()),
         Err(e) => format!("{}: {}", e.kind(), rt::core::truncate(&e.msg(), 80)),
